@@ -29,7 +29,7 @@ RULE = ("part A enumerates (session state in {NOT SELECTED, SELECTED}) x (11 inb
         "also with a slow application 'disconnected' handler while the peer reconnects at once) with seeded yield injection, "
         "half of them with the disabling thread slowed to milliseconds per yield, plus forced schedules (disable() held at its "
         "stop-flag statement until the listen/connect thread has ended); distinct by (state, stream, offset, follow-up, segmentation | scenario, seed); "
-        "non-trivial when the cut falls inside a frame or a disable races with connection set-up")
+        "non-trivial when the cut falls inside a frame or a disable races with connection set-up; plus: a cut after a burst of 1100 Linktest.req; peers that connect and leave at once; forced schedules for the race between the end of a connection (restart of the listen / connect thread) and disable()")
 ASSUMPTIONS = ["the in-memory connection reproduces TcpConnection's callback contract (see lib/pipe.py)",
                "a close sequence that has not finished after the watchdog is a violation only if every thread is parked in the "
                "same untimed wait over several samples; otherwise the case is inconclusive",
